@@ -613,23 +613,24 @@ SumSeq(q) == IF Len(q) = 0 THEN 0 ELSE (IF q[1] > 1000000 THEN 1000000 ELSE q[1]
 
 \* What the image readers must do with a header whose parse ended as r = ParseHeader(ImageInit, ..)
 \* (cfg: name and length of the data file that exists):
-\* [k |-> "accept", x, y, z] | [k |-> "reject"] | [k |-> "any"] (outside the modelled part: anything but a crash)
+\* [k |-> "accept", x, y, z] | [k |-> "reject"] | [k |-> "any"] (outside the modelled part: anything but a crash);
+\* a rejection is made while parsing (stage "parse": by error() - thrown - or by parse() returning false) or when the data are read
 ImageJudge(r, cfg) ==
   LET v == r.st.vars IN
-  IF r.verdict # "accepted" THEN [k |-> "reject", why |-> r.why]
-  ELSE IF v.unmodelled THEN [k |-> "any", why |-> "unmodelled"]
-  ELSE IF ~HdrPostOk(v) THEN [k |-> "reject", why |-> "post_processing"]
-  ELSE IF v.PET_data_type # 5 THEN [k |-> "reject", why |-> "expecting an image"]       \* also -1: a value outside the list
-  ELSE IF v.num_dimensions # 3 THEN [k |-> "reject", why |-> "expecting 3D image"]
-  ELSE IF \E d \in 1..3 : Len(v.matrix_size[d]) # 1 THEN [k |-> "reject", why |-> "homogeneous dimensions"]
-  ELSE IF v.matrix_labels[1] # "" /\ v.matrix_labels # <<"x", "y", "z">> THEN [k |-> "reject", why |-> "x,y,z order"]
-  ELSE IF v.data_file_name # cfg.datafile THEN [k |-> "reject", why |-> "data file"]
-  ELSE IF Len(v.data_offset) < 1 \/ Len(v.image_scaling_factors) < 1 THEN [k |-> "reject", why |-> "no dataset"]
-  ELSE IF ~TypeValid(v.number_format, v.bytes_per_pixel) THEN [k |-> "reject", why |-> "number type"]
-  ELSE IF v.data_offset[1].big THEN [k |-> "reject", why |-> "offset"]
+  IF r.verdict # "accepted" THEN [k |-> "reject", why |-> r.why, stage |-> "parse", thrown |-> r.verdict = "error"]
+  ELSE IF v.unmodelled THEN [k |-> "any", why |-> "unmodelled", stage |-> "", thrown |-> FALSE]
+  ELSE IF ~HdrPostOk(v) THEN [k |-> "reject", why |-> "post_processing", stage |-> "parse", thrown |-> FALSE]
+  ELSE IF v.PET_data_type # 5 THEN [k |-> "reject", why |-> "expecting an image", stage |-> "parse", thrown |-> FALSE]       \* also -1: a value outside the list
+  ELSE IF v.num_dimensions # 3 THEN [k |-> "reject", why |-> "expecting 3D image", stage |-> "parse", thrown |-> FALSE]
+  ELSE IF \E d \in 1..3 : Len(v.matrix_size[d]) # 1 THEN [k |-> "reject", why |-> "homogeneous dimensions", stage |-> "parse", thrown |-> FALSE]
+  ELSE IF v.matrix_labels[1] # "" /\ v.matrix_labels # <<"x", "y", "z">> THEN [k |-> "reject", why |-> "x,y,z order", stage |-> "parse", thrown |-> FALSE]
+  ELSE IF v.data_file_name # cfg.datafile THEN [k |-> "reject", why |-> "data file", stage |-> "data", thrown |-> FALSE]
+  ELSE IF Len(v.data_offset) < 1 \/ Len(v.image_scaling_factors) < 1 THEN [k |-> "reject", why |-> "no dataset", stage |-> "data", thrown |-> FALSE]
+  ELSE IF ~TypeValid(v.number_format, v.bytes_per_pixel) THEN [k |-> "reject", why |-> "number type", stage |-> "data", thrown |-> FALSE]
+  ELSE IF v.data_offset[1].big THEN [k |-> "reject", why |-> "offset", stage |-> "data", thrown |-> FALSE]
   ELSE IF ~Fits4(v.matrix_size[1][1], v.matrix_size[2][1], v.matrix_size[3][1], 1, v.bytes_per_pixel, v.data_offset[1].n, cfg.datalen)
-       THEN [k |-> "reject", why |-> "data file too short"]                               \* "data whose size contradicts the header"
-  ELSE [k |-> "accept", why |-> "", x |-> v.matrix_size[1][1], y |-> v.matrix_size[2][1], z |-> v.matrix_size[3][1]]
+       THEN [k |-> "reject", why |-> "data file too short", stage |-> "data", thrown |-> FALSE]                               \* "data whose size contradicts the header"
+  ELSE [k |-> "accept", why |-> "", stage |-> "", thrown |-> FALSE, x |-> v.matrix_size[1][1], y |-> v.matrix_size[2][1], z |-> v.matrix_size[3][1]]
 
 \* Projection data: the scanner / ProjDataInfo consistency checks are not modelled, so a header that
 \* passes the modelled checks MAY be accepted; if it is, the object must have the shape the header announces.
